@@ -43,6 +43,11 @@ func genC06(t *rapid.T) impCase {
 		i := rapid.IntRange(0, n-1).Draw(t, "faultfile")
 		g.Faults[i] = pick(t, c06SyslFaults, "faultkind")
 	}
+	if len(g.Edges[0]) >= 6 && rapid.Bool().Draw(t, "widefault") {
+		// wide fan-out: an unreadable file among the later imports of the root, with readable ones after it
+		k := rapid.IntRange(4, len(g.Edges[0])-2).Draw(t, "widefaultat")
+		g.Faults[g.Edges[0][k]] = pick(t, []string{"readerr", "readerr", "badimport"}, "widefaultkind")
+	}
 	// faulty foreign leaves hung under random parents
 	nl := rapid.IntRange(0, 2).Draw(t, "nforeign")
 	for k := 0; k < nl; k++ {
@@ -89,26 +94,33 @@ func (g *impCase) describeFaults() string {
 }
 
 func c06RunOne(x *X, g *impCase, sched []int) error {
+	_, err := c06RunOneR(x, g, sched)
+	return err
+}
+
+func c06RunOneR(x *X, g *impCase, sched []int) (*gateResult, error) {
 	follow := func(i int) bool { return c06Follows(g.Faults[i]) }
-	gr := newGateReader(g)
-	for i, k := range g.Faults {
-		if k == "readerr" {
-			gr.readErr[i] = true
-		}
+	r, death, inconcl := gatedRun(g, sched, "c06")
+	if inconcl {
+		x.Inconclusive("a run that overran its time bound did not reproduce")
+		return r, nil
 	}
-	r := runGated(g, gr, sched, follow)
+	if death != nil {
+		return r, finding("crash:"+death.Sig(), "the process ended instead of returning an error: %s\n%s", firstLine(death.Text), g.describeFaults())
+	}
 	if r.Hung {
-		gr2 := newGateReader(g)
-		gr2.readErr = gr.readErr
-		r2 := runGated(g, gr2, sched, follow)
+		r2, death2, _ := gatedRun(g, sched, "c06")
+		if death2 != nil {
+			return r2, finding("crash:"+death2.Sig(), "the process ended instead of returning an error: %s\n%s", firstLine(death2.Text), g.describeFaults())
+		}
 		if r2.Hung {
-			return finding("hang", "Parse did not return after every pending read was released (reads %d, releases %v)\n%s", r2.Total, r2.Releases, g.describeFaults())
+			return r2, finding("hang", "Parse did not return after every pending read was released (reads %d, releases %v)\n%s", r2.Total, r2.Releases, g.describeFaults())
 		}
 		x.Inconclusive("a stalled run did not reproduce")
 		r = r2
 	}
 	if r.Panic != "" {
-		return finding("panic-in-parse", "panic during Parse: %s\n%s", r.Panic, g.describeFaults())
+		return r, finding("panic-in-parse", "panic during Parse: %s\n%s", r.Panic, g.describeFaults())
 	}
 	// the files actually retrieved under this completion order (exact: derived from the release log)
 	released := map[int]bool{}
@@ -135,31 +147,31 @@ func c06RunOne(x *X, g *impCase, sched []int) error {
 		if len(reachedFailing) > 1 {
 			x.Class("reached_failures_ge2")
 		}
-		if r.Err == nil {
-			return fmt.Errorf("a file in the closure fails (%v) but Parse reported no error (module nil=%v; releases %v)\n%s",
-				fnames(reachedFailing), r.Module == nil, r.Releases, g.describeFaults())
+		if !r.HasErr {
+			return r, fmt.Errorf("a file in the closure fails (%v) but Parse reported no error (module nil=%v; releases %v)\n%s",
+				fnames(reachedFailing), r.ModuleNil, r.Releases, g.describeFaults())
 		}
-		if r.Module != nil {
-			return fmt.Errorf("Parse returned an error and a model at the same time: %v\n%s", r.Err, g.describeFaults())
+		if !r.ModuleNil {
+			return r, fmt.Errorf("Parse returned an error and a model at the same time: %v\n%s", r.ErrText, g.describeFaults())
 		}
 		named := false
 		for _, i := range reachedFailing {
-			if strings.Contains(r.Err.Error(), g.Paths[i]) {
+			if strings.Contains(r.ErrText, g.Paths[i]) {
 				named = true
 			}
 		}
 		if !named {
-			return fmt.Errorf("error does not name any failing file (failing: %v): %q\n%s", reachedFailing, r.Err.Error(), g.describeFaults())
+			return r, fmt.Errorf("error does not name any failing file (failing: %v): %q\n%s", reachedFailing, r.ErrText, g.describeFaults())
 		}
-		return nil
+		return r, nil
 	}
 	// no reached file fails: the compile must succeed (guards against "always error")
 	x.Class("no_reached_failure")
-	if r.Err != nil {
-		return fmt.Errorf("no retrieved file fails, yet Parse failed: %v (releases %v)\n%s", r.Err, r.Releases, g.describeFaults())
+	if r.HasErr {
+		return r, fmt.Errorf("no retrieved file fails, yet Parse failed: %v (releases %v)\n%s", r.ErrText, r.Releases, g.describeFaults())
 	}
-	if r.Module == nil {
-		return fmt.Errorf("no error and no model\n%s", g.describeFaults())
+	if r.ModuleNil {
+		return r, fmt.Errorf("no error and no model\n%s", g.describeFaults())
 	}
 	if r.ModelExact && (g.Depth == 0) {
 		// contributions: the reference closure minus files that contribute no call (truncok)
@@ -169,12 +181,12 @@ func c06RunOne(x *X, g *impCase, sched []int) error {
 				want = append(want, fmt.Sprintf("F%d", i))
 			}
 		}
-		order, _ := contributions(r.Module)
+		order := r.Order
 		if strings.Join(order, " ") != strings.Join(want, " ") {
-			return fmt.Errorf("contributions differ: want %v got %v\n%s", want, order, g.describeFaults())
+			return r, fmt.Errorf("contributions differ: want %v got %v\n%s", want, order, g.describeFaults())
 		}
 	}
-	return nil
+	return r, nil
 }
 
 func checkC06(x *X, g impCase) error {
@@ -227,13 +239,8 @@ func checkC06Matrix(x *X, c c06MatrixCase) error {
 			stream := []int{}
 			n := 0
 			for {
-				follow := func(i int) bool { return c06Follows(g.Faults[i]) }
-				gr := newGateReader(&g)
-				if kind == "readerr" {
-					gr.readErr[i] = true
-				}
-				r := runGated(&g, gr, stream, follow)
-				if err := c06RunOne(x, &g, stream); err != nil {
+				r, err := c06RunOneR(x, &g, stream)
+				if err != nil {
 					return err
 				}
 				cells++
@@ -278,6 +285,6 @@ var c06Matrix = Define("C06", "matrix",
 
 func TestC06(t *testing.T) {
 	checkKnown(t, "C06")
-	c06Prop.Run(t, scale(150, 1500))
-	c06Matrix.Run(t, scale(12, 120))
+	c06Prop.Run(t, scale(350, 2500))
+	c06Matrix.Run(t, scale(20, 150))
 }
